@@ -913,8 +913,26 @@ func (x *execRun) fnErr(kind, id int) error {
 }
 
 func (c *checker) checkStacksEqual(x *execRun, who string, n int) {
+	// A slow first member parks whoever is reporting, between its own call and the next
+	// member's: reports of different goroutines can then reach the members in different orders.
+	// What every member must still see is the same reports, each goroutine's in its order - and
+	// the reports about one task, like those about the directive, all come from one goroutine.
+	byName := func(l []EmEv) []EmEv {
+		out := append([]EmEv{}, l...)
+		key := func(e EmEv) string {
+			if e.Kind == EmTaskSkipped {
+				return e.Name + "\x00skipped" // reported by the caller, whoever else reports about that task
+			}
+			return e.Name
+		}
+		sort.SliceStable(out, func(i, j int) bool { return key(out[i]) < key(out[j]) })
+		return out
+	}
 	for k := 1; k < n; k++ {
 		a, b := x.em[0], x.em[k]
+		if x.d.SlowEmit {
+			a, b = byName(a), byName(b)
+		}
 		same := len(a) == len(b)
 		for i := 0; same && i < len(a); i++ {
 			same = emEq(a[i], b[i])
